@@ -314,3 +314,31 @@ Proof.
   - intros U. rewrite UQ in U. discriminate.
   - reflexivity.
 Qed.
+
+(* ---------------------------------------------------------------------------------------- *)
+(* round 6: Array::remove(index) with an index that is not in the array (ORemOut)            *)
+(* ---------------------------------------------------------------------------------------- *)
+(* On every state: the call is accepted; with the outcome the code has now (r = None) the state -
+   world, event log, variables - is unchanged and the spec's content is unchanged; with an outcome
+   r = Some j it is, in model and spec, the removal of element j through remove(index) (so that
+   every theorem about ORemAt - instances destroyed once, storage kept, refinement - is a theorem
+   about it). *)
+Theorem remove_out_of_range_proof : forall (st : state) (x : nat) (a : arr) (i : N),
+  getv (svars st) x = Some (CA a) -> (N.of_nat (length (aelems a)) <= i)%N ->
+  step st (ORemOut x i None) = Ok (true, st) /\
+  spec_step (abs st) (ORemOut x i None) = (true, abs st) /\
+  forall j, step st (ORemOut x i (Some j)) = step st (ORemAt x j) /\
+            spec_step (abs st) (ORemOut x i (Some j)) = spec_step (abs st) (ORemAt x j).
+Proof.
+  intros st x a i G L.
+  assert (O : forall r, out_idx KArray (length (aelems a)) i r = Some r).
+  { intros r. unfold out_idx. cbn [is_array andb]. apply N.leb_le in L. rewrite L. reflexivity. }
+  destruct (abs_cont_len (sw st) (CA a)) as [EL EK]. cbn [clen kind_of] in EL, EK.
+  destruct (abs_cont (sw st) (CA a)) as [k l] eqn:AC. cbn [fst snd] in EL, EK. subst k.
+  split; [|split].
+  - cbn [step]. rewrite G. cbn [kind_of clen]. rewrite O. reflexivity.
+  - cbn [spec_step]. rewrite sget_abs, G. cbn [option_map]. rewrite AC, EL, O. reflexivity.
+  - intros j. split.
+    + cbn [step]. rewrite G. cbn [kind_of clen]. rewrite O. reflexivity.
+    + cbn [spec_step]. rewrite sget_abs, G. cbn [option_map]. rewrite AC, EL, O. reflexivity.
+Qed.
